@@ -11,7 +11,7 @@ TRACE_MOD = "LiquidVestingTrace.tla"
 
 MANIFEST_ENTRY = dict(engine="LiquidVesting", design="§4 C11",
    technique="TLA+ spec LiquidVesting.tla (on Schedule.tla): TLC exhaustive checking of the split transcription on the whole small input space and of the ledger invariants / step clauses on all accepted message histories of the as-built machine; TLC-simulated behaviours and seeded random large histories executed on the real liquidvesting, vesting, bank and erc20 message servers; every recorded helper output and every recorded step validated by TLC against the property layer (trace validation)",
-   text="The split of a lockup schedule (SubtractAmountFromPeriods) is proved exact on every period list of up to 4 periods with amounts 0..4 and every requested amount, on the model and, line by line, on the real function (plus seeded 10^18-scale inputs of up to 8 periods). Liquidate / transfer / redeem histories over three holders with scripted block times are explored exhaustively on the as-built machine (backing, schedule-sums-to-supply, exact split by release instants, no-early-unlock on redeem compared at every critical instant) and replayed on the real keepers, whose stores (module balance, liquid supply and holdings incl. the ERC20 side, Denom records, vesting account records) are projected after every message and checked by TLC; after every redeem the recipient account object itself is asked what it locks at every critical instant (start/end time rule included) and the no-early-unlock clause is evaluated on those answers too; histories contain restarts of the module from its own exported genesis (after full redeems of older tokens), after which the same invariants and clauses apply.",
+   text="The split of a lockup schedule (SubtractAmountFromPeriods) is proved exact on every period list of up to 4 periods with amounts 0..4 and every requested amount, on the model and, line by line, on the real function (plus seeded 10^18-scale inputs of up to 8 periods). Liquidate / transfer / redeem histories over three holders with scripted block times are explored exhaustively on the as-built machine (backing, schedule-sums-to-supply, exact split by release instants, no-early-unlock on redeem compared at every critical instant) and replayed on the real keepers, whose stores (module balance, liquid supply and holdings incl. the ERC20 side, Denom records, vesting account records) are projected after every message and checked by TLC; after every redeem the recipient account object itself is asked what it locks at every critical instant (start/end time rule included) and the no-early-unlock clause is evaluated on those answers too; histories contain restarts of the module from its own exported genesis (after full redeems of older tokens), after which the same invariants and clauses apply; histories with many tokens in circulation at once (specs/LiquidVestingMany.tla: 11 to 23 tokens issued, so that the identifiers have one and two digits, then redeemed completely in every order on the model and in random orders on the real keepers, interleaved with transfers, partial redeems, further liquidations and restarts) are judged by the same invariants and frame clauses (the record, supply and holdings of every OTHER token are unchanged by a step).",
    note="Bounded by the constants in specs/LiquidVesting_*.cfg; messages run through MsgServiceRouter handlers on a cached context (baseapp.runMsgs semantics) with scripted block times, not through full DeliverTx; recipients have no delegations; locked amounts are derived from the recorded schedules through the denotation of Schedule.tla (the bank's own LockedCoins at the block time is compared as a diagnostic); TLC, the Json community module and the BigNum override are trusted.")
 
 # regression scenario of finding F2 (merge_min_start, repaired in /repo by c3dec7b; on a tree that has
@@ -253,7 +253,7 @@ def run(c):
             raise Infra("too few scripts generated from %s: %d" % (cfg, len(sc)))
         scripts += [{"cfg": s["cfg"], "steps": [{"ev": st["ev"], "args": st["args"]} for st in s["steps"]]} for s in sc]
     #    histories with many tokens (issue 12, then drain): 32 steps each
-    nmany = 12 if quick else 120
+    nmany = 12 if quick else 40
     sc, _ = tlc_scripts(wd, "LiquidVestingMany.tla", "LiquidVestingMany_sim.cfg", nmany, 32, c.seed)
     if len(sc) < nmany // 2:
         raise Infra("too few scripts generated from LiquidVestingMany_sim.cfg: %d" % len(sc))
@@ -267,7 +267,7 @@ def run(c):
     npure = 1500 if quick else 40000
     hv(["liquidvesting", "--enum", "4,4", "--pure-random", str(npure), "--scripts", "scripts.json",
         "--random", str(nrandom), "--steps", "10" if quick else "16",
-        "--many", "12" if quick else "150", "--tokens", "12", "--seed", str(c.seed),
+        "--many", "12" if quick else "60", "--tokens", "12", "--seed", str(c.seed),
         "--out", "trace.ndjson"], cwd=wd, timeout=6000)
 
     # 3. code -> spec
@@ -281,7 +281,7 @@ def run(c):
     c.extra["scripts_replayed"] = len(scripts)
     c.extra["random_scenarios"] = nrandom
     c.extra["many_token_scripts"] = len(sc)
-    c.extra["many_token_random_scenarios"] = 12 if quick else 150
+    c.extra["many_token_random_scenarios"] = 12 if quick else 60
     c.extra["coverage"] = cov
     c.extra["conformance_divergences"] = res["div"][:20]
     c.extra["conformance_divergence_count"] = len(res["div"])
